@@ -11,6 +11,28 @@ use std::process::{Command, Stdio};
 use std::sync::atomic::{AtomicUsize, Ordering};
 use std::sync::{Arc, Mutex};
 
+static LAST_CRUMB: Mutex<Option<std::time::Instant>> = Mutex::new(None);
+
+/// Liveness breadcrumb from a worker: at most one line per second, naming what is being evaluated.
+/// The parent treats prolonged silence as a hang of the case named by the last crumb.
+pub fn crumb(text: impl FnOnce() -> String) {
+    let mut g = LAST_CRUMB.lock().unwrap();
+    let now = std::time::Instant::now();
+    if g.map(|t| now.duration_since(t).as_millis() >= 1000).unwrap_or(true) {
+        *g = Some(now);
+        drop(g);
+        let t = text();
+        let t: String = t.chars().take(300).map(|c| if c == '\n' { ' ' } else { c }).collect();
+        let mut so = std::io::stdout().lock();
+        let _ = writeln!(so, "CRUMB {t}");
+        let _ = so.flush();
+    }
+}
+
+pub fn stall_limit() -> std::time::Duration {
+    std::time::Duration::from_secs(std::env::var("VERIF_STALL_S").ok().and_then(|s| s.parse().ok()).unwrap_or(180))
+}
+
 pub fn worker_main(check: &dyn Check, tier: Tier) {
     let stdin = std::io::stdin();
     let mut line = String::new();
@@ -67,39 +89,60 @@ pub fn run_pool(check_id: &str, tier: Tier, units: Vec<Value>, jobs: usize) -> U
                     .spawn()
                     .expect("spawn worker")
             };
+            // stdout of the worker is read by a helper thread so that silence can be timed
+            let start_reader = |out: std::process::ChildStdout| {
+                let (tx, rx) = std::sync::mpsc::channel::<String>();
+                std::thread::spawn(move || {
+                    let mut r = BufReader::new(out);
+                    let mut line = String::new();
+                    loop {
+                        line.clear();
+                        match r.read_line(&mut line) {
+                            Ok(0) | Err(_) => break,
+                            Ok(_) => {
+                                if tx.send(line.clone()).is_err() {
+                                    break;
+                                }
+                            }
+                        }
+                    }
+                });
+                rx
+            };
             let mut child = spawn();
             let mut cin = child.stdin.take().unwrap();
-            let mut cout = BufReader::new(child.stdout.take().unwrap());
+            let mut lines = start_reader(child.stdout.take().unwrap());
             loop {
                 let i = next.fetch_add(1, Ordering::SeqCst);
                 if i >= units.len() {
                     break;
                 }
                 let unit = &units[i];
-                let mut ok = writeln!(cin, "{}", serde_json::to_string(unit).unwrap()).is_ok()
-                    && cin.flush().is_ok();
+                let ok = writeln!(cin, "{}", serde_json::to_string(unit).unwrap()).is_ok() && cin.flush().is_ok();
                 let mut result: Option<UnitResult> = None;
+                let mut last_crumb = String::new();
+                let mut stalled = false;
                 if ok {
-                    let mut line = String::new();
                     loop {
-                        line.clear();
-                        match cout.read_line(&mut line) {
-                            Ok(0) | Err(_) => {
-                                ok = false;
+                        match lines.recv_timeout(stall_limit()) {
+                            Err(std::sync::mpsc::RecvTimeoutError::Timeout) => {
+                                stalled = true;
                                 break;
                             }
-                            Ok(_) => {
+                            Err(_) => break,
+                            Ok(line) => {
                                 if let Some(rest) = line.strip_prefix("RESULT ") {
                                     match serde_json::from_str::<UnitResult>(rest.trim()) {
                                         Ok(r) => result = Some(r),
                                         Err(e) => {
                                             let mut r = UnitResult::default();
-                                            r.machinery_errors
-                                                .push(format!("bad worker result: {e}"));
+                                            r.machinery_errors.push(format!("bad worker result: {e}"));
                                             result = Some(r);
                                         }
                                     }
                                     break;
+                                } else if let Some(c) = line.strip_prefix("CRUMB ") {
+                                    last_crumb = c.trim().to_string();
                                 }
                                 // anything else on stdout is noise from the subject; ignore
                             }
@@ -112,18 +155,33 @@ pub fn run_pool(check_id: &str, tier: Tier, units: Vec<Value>, jobs: usize) -> U
                         respawn = r.poisoned;
                         total.lock().unwrap().merge(r);
                     }
+                    None if stalled => {
+                        let _ = child.kill();
+                        let mut r = UnitResult::default();
+                        r.evaluations += 1;
+                        r.violation(
+                            "hang",
+                            format!(
+                                "no sign of life from the worker for {} s while evaluating `{}`: the subject spins or blocks without returning",
+                                stall_limit().as_secs(),
+                                if last_crumb.is_empty() { unit.to_string() } else { last_crumb.clone() }
+                            ),
+                            serde_json::json!({"unit": unit, "last_crumb": last_crumb}),
+                        );
+                        r.caps.push(format!("unit {unit} abandoned after a stall"));
+                        total.lock().unwrap().merge(r);
+                        respawn = true;
+                    }
                     None => {
                         let status = child.wait().ok();
                         let mut r = UnitResult::default();
                         if let Some(key) = unit.get("on_death").and_then(|k| k.as_str()) {
                             // this unit feeds hostile input to the subject under a memory cap:
                             // the process dying is the subject aborting, i.e. a verdict
-                            r.violation(key, format!("the process running unit {unit} died (status {status:?}): the subject aborted"), serde_json::json!({"unit": unit}));
+                            r.violation(key, format!("the process running unit {unit} died (status {status:?}) while evaluating `{last_crumb}`: the subject aborted"), serde_json::json!({"unit": unit, "last_crumb": last_crumb}));
                             r.evaluations += 1;
                         } else {
-                            r.machinery_errors.push(format!(
-                                "worker died without a result on unit {unit} (status {status:?}, ok={ok})"
-                            ));
+                            r.machinery_errors.push(format!("worker died without a result on unit {unit} (status {status:?}, ok={ok}, last crumb `{last_crumb}`)"));
                         }
                         total.lock().unwrap().merge(r);
                         respawn = true;
@@ -134,7 +192,7 @@ pub fn run_pool(check_id: &str, tier: Tier, units: Vec<Value>, jobs: usize) -> U
                     let _ = child.wait();
                     child = spawn();
                     cin = child.stdin.take().unwrap();
-                    cout = BufReader::new(child.stdout.take().unwrap());
+                    lines = start_reader(child.stdout.take().unwrap());
                 }
             }
             drop(cin);
